@@ -543,6 +543,40 @@ pub struct TargetInner {
     pub ctx: Option<Arc<SimCtx>>,
     pub rejected_applies: u64,
     pub rejected_pushes: u64,
+    /// The same data kept the way many real targets keep it: a hash set of
+    /// the library's own `Payload` values, relying on their `Eq`/`Hash`.
+    pub shadow: std::collections::HashSet<Payload>,
+}
+
+impl TargetInner {
+    /// Installs `set` as the previous data (both representations). Origins
+    /// whose max length equals the prefix length are stored without an
+    /// explicit max length where `implicit` says so: the same item, spelled
+    /// the other way.
+    pub fn seed(&mut self, set: DataSet, mut implicit: impl FnMut() -> bool) {
+        self.shadow.clear();
+        for (k, v) in &set {
+            let p = match k {
+                Key::Origin { v6, addr, plen, maxlen, asn } if plen == maxlen && implicit() => {
+                    let prefix = if *v6 {
+                        Prefix::new_v6(Ipv6Addr::from(*addr), *plen)
+                    } else {
+                        Prefix::new_v4(Ipv4Addr::from(*addr as u32), *plen)
+                    }
+                    .expect("model prefixes are canonical");
+                    Payload::origin(MaxLenPrefix::new(prefix, None).expect("no max-len"), Asn::from_u32(*asn))
+                }
+                _ => to_payload(k, v),
+            };
+            self.shadow.insert(p);
+        }
+        self.data = set;
+    }
+
+    /// The shadow set in model terms.
+    pub fn shadow_as_dataset(&self) -> DataSet {
+        self.shadow.iter().map(from_payload).collect()
+    }
 }
 
 /// Recording target. It is lenient (set semantics) so that a completed step
@@ -553,6 +587,7 @@ pub struct ModelTarget(pub Arc<Mutex<TargetInner>>);
 pub struct ModelUpdate {
     reset: bool,
     items: Vec<(bool, Key, Vec<u32>)>,
+    raw: Vec<(bool, Payload)>,
     target: Arc<Mutex<TargetInner>>,
 }
 
@@ -570,6 +605,7 @@ impl rpki::rtr::client::PayloadUpdate for ModelUpdate {
         }
         let (k, v) = from_payload(&payload);
         self.items.push((action.is_announce(), k, v));
+        self.raw.push((action.is_announce(), payload));
         Ok(())
     }
 }
@@ -579,7 +615,7 @@ impl PayloadTarget for ModelTarget {
 
     fn start(&mut self, reset: bool) -> Self::Update {
         self.0.lock().unwrap().started += 1;
-        ModelUpdate { reset, items: Vec::new(), target: self.0.clone() }
+        ModelUpdate { reset, items: Vec::new(), raw: Vec::new(), target: self.0.clone() }
     }
 
     fn apply(&mut self, update: Self::Update, timing: Timing) -> Result<(), PayloadError> {
@@ -593,6 +629,25 @@ impl PayloadTarget for ModelTarget {
         }
         if update.reset {
             t.data.clear();
+            t.shadow.clear();
+        }
+        for (announce, p) in &update.raw {
+            match p {
+                Payload::Aspa(a) => {
+                    let customer = a.customer;
+                    t.shadow.retain(|x| !matches!(x, Payload::Aspa(y) if y.customer == customer));
+                    if *announce {
+                        t.shadow.insert(p.clone());
+                    }
+                }
+                _ => {
+                    if *announce {
+                        t.shadow.replace(p.clone());
+                    } else {
+                        t.shadow.remove(p);
+                    }
+                }
+            }
         }
         let mut dup = 0;
         let mut unk = 0;
